@@ -33,14 +33,61 @@ func checkC09(c *Ctx, r *Report) {
 	// ---- R1 ---------------------------------------------------------------
 	r1 := r.Rule("C09-R1", "typestate/E1b", 9, "peerAddrs heap-membership invariant: on heap iff not connected (4-state tables for Update, Insert, Delete, PopIfExpired)")
 	// condition families on the entry parameter
-	conds := func(f *ssa.Function, entry string) (notInHeap, connected []ssa.Value) {
+	// a comparison of heapIndex with an integer constant, in any spelling, has a definite outcome when the entry is
+	// not on the heap (heapIndex == -1) and — for the constants -1 and 0 — when it is (heapIndex >= 0)
+	type heapCond struct {
+		v       ssa.Value
+		off, on tri // outcome when not on the heap / on the heap
+	}
+	cmpInt2 := func(op token.Token, a, b int64) bool {
+		switch op {
+		case token.EQL:
+			return a == b
+		case token.NEQ:
+			return a != b
+		case token.LSS:
+			return a < b
+		case token.LEQ:
+			return a <= b
+		case token.GTR:
+			return a > b
+		case token.GEQ:
+			return a >= b
+		}
+		return false
+	}
+	conds := func(f *ssa.Function, entry string) (notInHeap []heapCond, connected []ssa.Value) {
 		allInstrs(f, func(in ssa.Instruction) {
 			switch x := in.(type) {
 			case *ssa.BinOp:
-				if (x.Op == token.EQL || x.Op == token.NEQ) && isLoadOfField(eaT+".heapIndex")(strip2(x.X)) {
-					if k, ok := constInt(x.Y); ok && k == -1 {
-						notInHeap = append(notInHeap, x)
+				op := x.Op
+				var k int64
+				var okC bool
+				if isLoadOfField(eaT + ".heapIndex")(strip2(x.X)) {
+					k, okC = constInt(x.Y)
+				} else if isLoadOfField(eaT + ".heapIndex")(strip2(x.Y)) {
+					k, okC = constInt(x.X)
+					if fl, ok := map[token.Token]token.Token{token.LSS: token.GTR, token.GTR: token.LSS, token.LEQ: token.GEQ, token.GEQ: token.LEQ, token.EQL: token.EQL, token.NEQ: token.NEQ}[op]; ok {
+						op = fl
+					} else {
+						okC = false
 					}
+				}
+				switch op {
+				case token.EQL, token.NEQ, token.LSS, token.LEQ, token.GTR, token.GEQ:
+				default:
+					okC = false
+				}
+				if !okC {
+					return
+				}
+				hc := heapCond{v: x, off: triOf(cmpInt2(op, -1, k)), on: triUnknown}
+				// on the heap the index is some i >= 0: the outcome is definite when it is the same for 0 and for a large i
+				if cmpInt2(op, 0, k) == cmpInt2(op, 1<<40, k) && (k == -1 || k == 0) {
+					hc.on = triOf(cmpInt2(op, 0, k))
+				}
+				if hc.on != triUnknown && hc.on != hc.off {
+					notInHeap = append(notInHeap, hc)
 				}
 			case *ssa.Call:
 				if calleeKey(x) == "(*"+eaT+").IsConnected" {
@@ -50,15 +97,14 @@ func checkC09(c *Ctx, r *Report) {
 		})
 		return
 	}
-	assume := func(nih []ssa.Value, nihV bool, con []ssa.Value, conV bool) map[ssa.Value]bool {
+	assume := func(nih []heapCond, nihV bool, con []ssa.Value, conV bool) map[ssa.Value]bool {
 		m := map[ssa.Value]bool{}
-		for _, v := range nih {
-			b := v.(*ssa.BinOp)
-			if b.Op == token.EQL {
-				m[v] = nihV
-			} else {
-				m[v] = !nihV
+		for _, hc := range nih {
+			t := hc.on
+			if nihV {
+				t = hc.off
 			}
+			m[hc.v] = t == triTrue
 		}
 		for _, v := range con {
 			m[v] = conV
@@ -505,45 +551,31 @@ func checkC09(c *Ctx, r *Report) {
 		if f == nil {
 			return
 		}
-		found := false
 		isNew := func(v ssa.Value) bool {
 			fl, _ := loadOfField(strip2(v))
 			return fl != nil && fl.Name() == "Seq" && !stored(strip(v))
 		}
 		isStored := func(v ssa.Value) bool { return stored(strip(v)) }
-		for _, b := range f.Blocks {
-			ifi, isIf := b.Instrs[len(b.Instrs)-1].(*ssa.If)
-			if !isIf {
-				continue
+		// the silent rejection `return false, nil` is reachable exactly when the stored Seq is greater
+		silent := func(ret *ssa.Return) bool {
+			if len(ret.Results) != 2 {
+				return false
 			}
-			tab := condTable(ifi.Cond, isStored, isNew)
-			if tab[0] == triUnknown || tab[1] == triUnknown || tab[2] == triUnknown {
-				continue
-			}
-			found = true
-			rejects := func(s *ssa.BasicBlock) bool {
-				ret, isR := s.Instrs[len(s.Instrs)-1].(*ssa.Return)
-				if !isR || len(ret.Results) != 2 {
-					return false
-				}
-				acc, isC := constBool(retVal(ret, 0))
-				return isC && !acc
-			}
-			ok := true
-			for o := ordLT; o <= ordGT; o++ {
-				succ := b.Succs[1]
-				if tab[o] == triTrue {
-					succ = b.Succs[0]
-				}
-				if rejects(succ) != (o == ordGT) {
-					ok = false
-				}
-			}
-			r7.Check(ok, fnK+": rejects exactly when stored Seq > record Seq (equal is a refresh; decision table)", instrPos(ifi), 3, "", "a record with an equal sequence number is rejected (or an older one accepted)", "")
+			acc, isC := constBool(retVal(ret, 0))
+			return isC && !acc && isNilConst(retVal(ret, 1))
 		}
-		if !found {
+		reach, ok := orderReach(f, isStored, isNew, silent)
+		nCmp := 0
+		allInstrs(f, func(in ssa.Instruction) {
+			if bo, isB := in.(*ssa.BinOp); isB && ((isStored(bo.X) && isNew(bo.Y)) || (isStored(bo.Y) && isNew(bo.X))) {
+				nCmp++
+			}
+		})
+		if nCmp == 0 {
 			r7.Fail(fnK+": sequence comparison", f.Pos(), "not found", "")
+			return
 		}
+		r7.Check(ok && reach == [3]bool{false, false, true}, fnK+": rejects exactly when stored Seq > record Seq (equal is a refresh; decision table)", f.Pos(), 3, "", "a record with an equal sequence number is rejected (or an older one accepted)", fmt.Sprintf("silent rejection reachable under stored<new: %v, ==: %v, >: %v", reach[0], reach[1], reach[2]))
 	}
 	seqCheck(mab("ConsumePeerRecord"), func(v ssa.Value) bool { return isLoadOfField(memP + ".peerRecordState.Seq")(strip2(v)) })
 	seqCheck("(*"+dsP+".dsAddrBook).ConsumePeerRecord", func(v ssa.Value) bool {
